@@ -667,6 +667,7 @@ def _judge(w: World, lay, e, pl, sends, raised, pr):
     if pr != want:
         stray = any("!" in c for row in pr["circ"] for c in row)
         bad.append({"clause": "state", "what": "a region's circuit is to another address than the region's" if stray
+                    else "a viewer's control connection / UDP association is not in the state it must be in" if pr["ctl"] != want["ctl"]
                     else "public session state differs", "expected": want, "got": pr, "raised": raised})
     return bad
 
@@ -1302,7 +1303,12 @@ def _b2(chk: Check, n_walks, length, label, churn=()):
                 fails.setdefault(rec["tid"], []).append(rec)
     chk.cov["traces_validated_against_impl"] += len(traces)
     chk.count(sum(len(t) for t in traces))
+    def _fail_idx(f):
+        p = f["fail"].split(" ")
+        return int(p[3]) if len(p) >= 4 and p[3].isdigit() else -1
     for ti, j, ev in rej:
+        if any(0 <= _fail_idx(f) < j for f in fails.get(ti, ())):
+            continue      # specification and implementation already disagreed earlier in this run (reported below)
         chk.violation("B2 %s: trace rejected by UdpProxy_Trace at event %d (%s)" % (label, j, ev.get("ev")),
                       {"kind": "b2-reject", "event": ev.get("ev"), "k": ev.get("k"), "msg": ev.get("label")},
                       {"trace_prefix": _clip_trace(traces[ti][max(0, j - 8):j + 1])})
@@ -1375,6 +1381,8 @@ def run(chk: Check):
         "the property is silent (either outcome accepted, bound to the observation) for: circuits marked dead by "
         "CloseCircuit/DisableSimulator, datagrams whose header decodes but whose body does not, banned messages sent BY the viewer",
         "an exception escaping datagram_received is a discard (asyncio logs and drops it)",
+        "every association is created by SOCKS5Server.handle_connection (greeting + UDP ASSOCIATE fed to a StreamReader, fake "
+        "datagram endpoint) and ends with EOF on that reader; a closed association receives no datagrams (its socket is closed)",
         "packet IDs of valid datagrams are arbitrary 32-bit values in arbitrary order (repeats, wrap-around, jumps of more "
         "than the injection window up and down); the forwarded bytes, ID included, are compared / recomputed by TLC",
         "domain-name (ATYP 3) requests never match a circuit: circuits are keyed by IP address and port",
